@@ -18,17 +18,19 @@ FLOOR_CALLS = 1400
 
 # rules of one pack that are also necessary conditions of another property: (pack, rule prefixes, key filter, why)
 SHARED = {
-    "C01": [("C15", ("C15.S1", "C15.S3", "C15.S4"), None, "the polygon that must contain the point is produced through the inverse face projection")],
+    "C01": [("C15", ("C15.S1", "C15.S3", "C15.S4", "C15.S5"), None, "the polygon that must contain the point is produced through the inverse face projection"),
+            ("C19", ("C19.A5",), None, "longitudes that differ by whole turns (and probes across the antimeridian) name the same point only if every wrap moves by the full period")],
     "C02": [("C01", ("C01.R5",), None, "interior points map back only if containment is decided by the exact sign of the cross product"),
-            ("C15", ("C15.S1", "C15.S3", "C15.S4"), None, "the reported centre and boundary come from the inverse face projection, the lookup from the forward one")],
-    "C04": [("C15", ("C15.S1", "C15.S3", "C15.S4"), None, "cell areas are equal only if the boundary is unprojected with the matching spherical/squashed triangle and an accurate angle helper")],
+            ("C15", ("C15.S1", "C15.S3", "C15.S4", "C15.S5"), None, "the reported centre and boundary come from the inverse face projection, the lookup from the forward one")],
+    "C04": [("C15", ("C15.S1", "C15.S3", "C15.S4", "C15.S5"), None, "cell areas are equal only if the boundary is unprojected with the matching spherical/squashed triangle and an accurate angle helper")],
     "C06": [("C02", ("C02.R2",), None, "IDs keep their meaning only if lookup and geometry use the same quintant/segment relabelling"),
             ("C05", ("C05.R4",), None, "stored IDs keep their meaning only if the bit layout is the documented one"),
             ("C18", ("C18.D2", "C18.D4"), None, "the face frame and nearest-face choice define which ID a point gets"),
             ("C17", ("C17.H",), None, "the curve tables define which ID a point gets within a quintant")],
     "C08": [("C20", ("C20.L3",), None, "sibling detection in compact relies on the stride between siblings")],
     "C09": [("C07", ("C07.T2", "C07.T3"), None, "uncompact delegates to cell_to_children, whose fan-out and bit placement decide the descendants")],
-    "C11": [("C04", ("C04.R1",), None, "the ring has vertices*n points only if it is built from the length-exact split pentagon")],
+    "C11": [("C04", ("C04.R1",), None, "the ring has vertices*n points only if it is built from the length-exact split pentagon"),
+            ("C19", ("C19.A5",), None, "the ring stays within a 180-degree window only if each unwrapping step is a whole turn")],
     "C17": [("C14", ("C14.O",), "a5::core::hilbert::", "the position<->cell maps are total for depths 1..29 only if no index/overflow site in the curve code can fail")],
     "C20": [("C07", ("C07.T3",), None, "descendants stay inside their ancestor's ID interval only if children are placed two bits per level below the parent's bits")],
 }
@@ -91,6 +93,12 @@ def main():
             continue
         n = 0
         for i in sub.run.instances:
+            if not i.ok and i.kind in ("floor", "anchor", "control") and i.rule.startswith(pack):
+                # the source pack could not evaluate all of its rules (missing anchor, fewer sites than counted): the
+                # shared necessary conditions are then undecided here as well - fail closed instead of passing on less
+                i.reason = "%s [shared rules from the %s pack are incomplete]" % (i.reason, pack)
+                run.instances.append(i)
+                continue
             if i.kind == "floor" or not any(i.rule == p or i.rule.startswith(p) for p in prefixes):
                 continue
             if keypart and keypart not in i.key:
